@@ -28,6 +28,10 @@ pub struct BaseEvent {
     pub n_pad_msgs: usize,
     /// waveform length class: 0 = mixed, 1 = all long
     pub long_only: bool,
+    /// take the PWB (board, chip) groups from this position of the sorted list of installed
+    /// groups (rotating coverage of all 256 groups across base events); None = seeded choice
+    #[serde(default)]
+    pub pad_start: Option<usize>,
 }
 
 #[derive(Clone, Debug, Serialize, Deserialize, PartialEq)]
@@ -146,7 +150,13 @@ pub fn build_base(b: &BaseEvent) -> BuiltEvent {
     let pad_delay = if b.run == u32::MAX { 100 } else { 115 };
     let installed: Vec<usize> = if maps.pwb_installed.is_empty() { (0..boards::pwb_boards().len()).collect() } else { maps.pwb_installed.clone() };
     let mut groups: Vec<(usize, u8)> = installed.iter().flat_map(|&bi| (0..4u8).map(move |c| (bi, c))).collect();
-    r.shuffle(&mut groups);
+    match b.pad_start {
+        Some(st) if !groups.is_empty() => {
+            let n = groups.len();
+            groups.rotate_left(st % n);
+        }
+        _ => r.shuffle(&mut groups),
+    }
     for &(bi, chip) in groups.iter().take(b.n_pad_msgs) {
         let board = &boards::pwb_boards()[bi];
         let req = if b.long_only { 300 } else { *r.pick(&[0u16, 1, pad_delay as u16, pad_delay as u16 + 1, 200, 511]) };
@@ -555,11 +565,32 @@ impl Check for C10Check {
     }
     fn count(&self, tier: Tier) -> u64 {
         match tier {
-            Tier::Quick => 46 * 23,
-            Tier::Thorough => 2000 * 23,
+            Tier::Quick => 46 * 23 + 172,
+            Tier::Thorough => 2000 * 23 + 6000,
         }
     }
-    fn generate(&self, seed: u64, index: u64, _tier: Tier) -> Value {
+    fn generate(&self, seed: u64, index: u64, tier: Tier) -> Value {
+        let n_faulted = if tier == Tier::Quick { 46 * 23 } else { 2000 * 23 };
+        if index >= n_faulted {
+            // consistent events only, on run numbers that have every map and calibration: the
+            // positive half of the statement (right slot, right calibration) over all 256 wires
+            // and, rotating, all 256 (board, chip) groups with all 72 pad channels
+            let j = index - n_faulted;
+            let base_seed = simcore::run_seed(simcore::driver::verif_seed(), "C10-consistent", j);
+            let mut rb = Rng::new(base_seed);
+            const CAL_RUNS: [u32; 8] = [u32::MAX, 11084, 11192, 12000, 10418, 10417, 9277, 4_000_000_000];
+            let base = BaseEvent {
+                run: CAL_RUNS[(j % 8) as usize],
+                seed: rb.next_u64(),
+                n_wires: if j % 2 == 0 { 256 } else { rb.usize(1, 64) },
+                n_pad_msgs: 12,
+                long_only: j % 3 == 0,
+                pad_start: Some(((j / 8) as usize * 12) % 256),
+            };
+            let mut r = Rng::new(seed);
+            let scn = Scn { base, fault: None, order_seeds: vec![0, r.next_u64() | 2], hash_keys: vec![r.next_u64()] };
+            return serde_json::to_value(scn).unwrap();
+        }
         // base event k = index / 23, fault slot = index % 23 (0 = none)
         let k = index / 23;
         let slot = (index % 23) as usize;
@@ -575,8 +606,9 @@ impl Check for C10Check {
                 1 => 1,
                 _ => rb.usize(2, 40),
             },
-            n_pad_msgs: rb.usize(0, 5),
+            n_pad_msgs: if k < 43 { 6 } else { rb.usize(0, 5) },
             long_only: k % 4 == 3,
+            pad_start: if k < 43 { Some((k as usize * 6) % 256) } else { None },
         };
         let mut r = Rng::new(seed);
         let fault = if slot == 0 { None } else { all_faults(&mut Rng::new(base_seed ^ 0xF)).into_iter().nth(slot - 1) };
